@@ -320,6 +320,8 @@ func runC15(c *Check) {
 	c.factorListFilledPerColumn("C15-R10")
 	c.labelWithoutIntegerDetour()
 	c.outputUnitFromDisplayedValues()
+	c.unitFromDisplayedNodeValues()
+	c.signRestoredOnEveryReturn()
 }
 
 // R8: two value types with different units are compatible only when one and the same
